@@ -185,6 +185,13 @@ class Folder:
                 return l * r
             if isinstance(node.op, ast.Sub) and isinstance(l, int) and isinstance(r, int):
                 return l - r
+            if isinstance(node.op, ast.Mod) and isinstance(l, str) and isinstance(r, (str, int, tuple)) and not isinstance(r, TT):
+                if isinstance(r, tuple) and not all(isinstance(x, (str, int)) for x in r):
+                    raise NotConst('format operand')
+                try:
+                    return l % r
+                except (TypeError, ValueError):
+                    raise NotConst('%-format')
             raise NotConst(ast.dump(node.op))
         if isinstance(node, ast.UnaryOp) and isinstance(node.op, ast.USub):
             v = ev(node.operand)
@@ -214,40 +221,57 @@ class Folder:
                 v = ev(node.args[0])
                 return tuple(v) if f.id == 'tuple' else list(v)
             # pure string methods on a constant
-            if isinstance(f, ast.Attribute) and f.attr in ('join', 'upper', 'lower', 'format', 'strip', 'replace') and not node.keywords:
+            if isinstance(f, ast.Attribute) and f.attr in ('join', 'upper', 'lower', 'format', 'strip', 'replace') \
+                    and (not node.keywords or f.attr == 'format') and all(k.arg is not None for k in node.keywords):
                 base = ev(f.value)
                 if isinstance(base, str):
                     args = [ev(a) for a in node.args]
+                    if f.attr == 'format' and node.keywords:
+                        kw = {k.arg: ev(k.value) for k in node.keywords}
+                        if all(isinstance(x, (str, int)) for x in list(kw.values()) + args):
+                            try:
+                                return base.format(*args, **kw)
+                            except (KeyError, IndexError, ValueError):
+                                raise NotConst('format')
+                        raise NotConst('format operand')
                     if f.attr == 'join' and len(args) == 1 and isinstance(args[0], (tuple, list)) and all(isinstance(x, str) for x in args[0]):
                         return base.join(args[0])
                     if f.attr in ('upper', 'lower', 'strip') and not args:
                         return getattr(base, f.attr)()
                     if f.attr in ('format', 'replace') and all(isinstance(x, (str, int)) for x in args):
                         return getattr(base, f.attr)(*args)
-            # a module-level helper whose body is one return expression (string/table builders evaluated at import)
+            # a module-level builder function (string/table fragments evaluated at import)
             if isinstance(f, ast.Name) and f.id in getattr(mod, 'funcs', {}) and not (env and f.id in env):
                 fn = mod.funcs[f.id].node
-                body = [s_ for s_ in fn.body if not (isinstance(s_, ast.Expr) and isinstance(s_.value, ast.Constant))]
                 a = fn.args
-                if len(body) == 1 and isinstance(body[0], ast.Return) and body[0].value is not None and not a.kwonlyargs and not a.kwarg \
-                        and not node.keywords and not any(isinstance(x, ast.Starred) for x in node.args) and not fn.decorator_list:
+                if not a.kwarg and not any(isinstance(x, ast.Starred) for x in node.args) and not fn.decorator_list \
+                        and all(k.arg is not None for k in node.keywords):
                     args = [ev(x) for x in node.args]
                     params = [x.arg for x in a.posonlyargs + a.args]
                     e2 = {}
-                    if len(args) < len(params) - len(a.defaults) or (len(args) > len(params) and not a.vararg):
+                    if len(args) > len(params) and not a.vararg:
                         raise NotConst('call arity')
                     for p_, v in zip(params, args):
                         e2[p_] = v
+                    for k in node.keywords:
+                        if k.arg in e2 or k.arg not in params + [x.arg for x in a.kwonlyargs]:
+                            raise NotConst('call keyword')
+                        e2[k.arg] = ev(k.value)
                     for p_, d in zip(params[len(params) - len(a.defaults):], a.defaults):
                         if p_ not in e2:
                             e2[p_] = self.eval(d, mod, None, cls)
+                    for p_, d in zip(a.kwonlyargs, a.kw_defaults):
+                        if p_.arg not in e2 and d is not None:
+                            e2[p_.arg] = self.eval(d, mod, None, cls)
+                    if any(p_ not in e2 for p_ in params):
+                        raise NotConst('call arity')
                     if a.vararg:
                         e2[a.vararg.arg] = tuple(args[len(params):])
                     self._depth = getattr(self, '_depth', 0) + 1
                     try:
                         if self._depth > 8:
                             raise NotConst('helper recursion')
-                        return self.eval(body[0].value, mod, e2, cls)
+                        return self._run_helper(fn, mod, e2, cls)
                     finally:
                         self._depth -= 1
             raise NotConst('call')
@@ -261,8 +285,74 @@ class Folder:
                     raise NotConst('subscript')
             raise NotConst('subscript')
         if isinstance(node, ast.IfExp):
-            raise NotConst('conditional')
+            if env is None:
+                raise NotConst('conditional')
+            t = ev(node.test)
+            if not isinstance(t, (bool, int, str, type(None), tuple, list)) or isinstance(t, TT):
+                raise NotConst('conditional on a non-constant')
+            return ev(node.body) if t else ev(node.orelse)
+        if env is not None and isinstance(node, ast.UnaryOp) and isinstance(node.op, ast.Not):
+            v = ev(node.operand)
+            if isinstance(v, (bool, int, str, type(None))):
+                return not v
+        if env is not None and isinstance(node, ast.Compare) and len(node.ops) == 1:
+            l, r = ev(node.left), ev(node.comparators[0])
+            if all(isinstance(x, (bool, int, str, type(None))) for x in (l, r)):
+                op = node.ops[0]
+                if isinstance(op, ast.Eq):
+                    return l == r
+                if isinstance(op, ast.NotEq):
+                    return l != r
+                if isinstance(op, ast.Is):
+                    return l is r
+                if isinstance(op, ast.IsNot):
+                    return l is not r
+        if env is not None and isinstance(node, ast.BoolOp):
+            last = None
+            for v_ in node.values:
+                last = ev(v_)
+                if not isinstance(last, (bool, int, str, type(None))):
+                    raise NotConst('boolean operand')
+                if isinstance(node.op, ast.And) and not last:
+                    return last
+                if isinstance(node.op, ast.Or) and last:
+                    return last
+            return last
         raise NotConst(type(node).__name__)
+
+    def _run_helper(self, fn, mod, e2, cls):
+        """a module-level builder function with a straight-line / if-else body over constants (evaluated at import in the
+        real program): assignments to names, `+=` on strings, if/else on foldable tests, one return per path"""
+        class _Ret(Exception):
+            def __init__(self, v):
+                self.v = v
+
+        def block(stmts):
+            for s_ in stmts:
+                if isinstance(s_, ast.Expr) and isinstance(s_.value, ast.Constant):
+                    continue
+                if isinstance(s_, ast.Return):
+                    raise _Ret(self.eval(s_.value, mod, e2, cls) if s_.value is not None else None)
+                if isinstance(s_, ast.Assign) and len(s_.targets) == 1 and isinstance(s_.targets[0], ast.Name):
+                    e2[s_.targets[0].id] = self.eval(s_.value, mod, e2, cls)
+                elif isinstance(s_, ast.AugAssign) and isinstance(s_.target, ast.Name) and isinstance(s_.op, ast.Add):
+                    cur = self.eval(ast.Name(id=s_.target.id, ctx=ast.Load()), mod, e2, cls)
+                    v = self.eval(s_.value, mod, e2, cls)
+                    if type(cur) is not type(v) or not isinstance(cur, (str, tuple, list, int)):
+                        raise NotConst('augmented assignment')
+                    e2[s_.target.id] = cur + v
+                elif isinstance(s_, ast.If):
+                    t = self.eval(s_.test, mod, e2, cls)
+                    if not isinstance(t, (bool, int, str, type(None), tuple, list)) or isinstance(t, TT):
+                        raise NotConst('helper branches on a non-constant')
+                    block(s_.body if t else s_.orelse)
+                else:
+                    raise NotConst(f'helper statement {type(s_).__name__}')
+        try:
+            block(fn.body)
+        except _Ret as r:
+            return r.v
+        return None
 
     def _flags(self, node, mod):
         if isinstance(node, ast.BinOp) and isinstance(node.op, ast.BitOr):
